@@ -33,4 +33,39 @@ inline void check_range_doesnt_cross_app_sbx_boundary(const void* ptr,
     "range has overflowed sandbox bounds");
 }
 
+// As above, for the callers that have the sandbox instance and whose range may
+// lie in application memory. is_in_same_sandbox is only meaningful when one of
+// its arguments is in sandbox memory: for two application addresses a backend
+// that compares size-aligned blocks answers "no" whenever the range crosses a
+// block line, which has nothing to do with the sandbox. So ask about each end.
+// (A range with both ends outside could still contain the sandbox: callers bound
+// the size by the size of the sandbox or check this separately.)
+template<typename T_Sbx>
+inline void check_range_doesnt_cross_app_sbx_boundary(
+  rlbox_sandbox<T_Sbx>& sandbox,
+  const void* ptr,
+  size_t size)
+{
+  auto ptr_start_val = reinterpret_cast<uintptr_t>(ptr);
+  detail::dynamic_check(
+    ptr_start_val,
+    "Performing memory operation memset/memcpy on a null pointer");
+  auto ptr_end_val = ptr_start_val + size - 1;
+  detail::dynamic_check(size == 0 || ptr_end_val >= ptr_start_val,
+                        "range has wrapped around the address space");
+
+  auto ptr_start = reinterpret_cast<void*>(ptr_start_val);
+  auto ptr_end = reinterpret_cast<void*>(ptr_end_val);
+
+  const bool start_inside = sandbox.is_pointer_in_sandbox_memory(ptr_start);
+  const bool end_inside = sandbox.is_pointer_in_sandbox_memory(ptr_end);
+  detail::dynamic_check(start_inside == end_inside,
+                        "range has overflowed sandbox bounds");
+  if (start_inside) {
+    detail::dynamic_check(
+      rlbox_sandbox<T_Sbx>::is_in_same_sandbox(ptr_start, ptr_end),
+      "range has overflowed sandbox bounds");
+  }
+}
+
 }
